@@ -420,25 +420,38 @@ func framing(fields []Field, atLeast11 bool, o Options) (Framing, int64, *Reject
 	if len(clF) == 0 {
 		return FramingNone, 0, nil
 	}
+	// All list members of all Content-Length lines. Differing members (as numbers
+	// when all are valid, as text otherwise) are "conflicting"; an invalid value
+	// that is not in conflict with another member is "invalid".
 	var vals []int64
-	members := 0
+	var texts []string
+	badClass, badAt := "", 0
 	for _, f := range clF {
 		for _, m := range strings.Split(f.Value, ",") {
-			members++
-			n, class := parseCL(trimOWS(m))
-			if class != "" {
-				return 0, 0, &RejectError{class, f.Start, fmt.Sprintf("Content-Length value %q", f.Value), false}
+			m = trimOWS(m)
+			n, class := parseCL(m)
+			if class != "" && badClass == "" {
+				badClass, badAt = class, f.Start
 			}
 			vals = append(vals, n)
+			texts = append(texts, m)
 		}
+	}
+	if badClass != "" {
+		for _, t := range texts[1:] {
+			if t != texts[0] {
+				return 0, 0, &RejectError{CLConflicting, clF[0].Start, fmt.Sprintf("conflicting Content-Length values %q", texts), false}
+			}
+		}
+		return 0, 0, &RejectError{badClass, badAt, fmt.Sprintf("Content-Length value %q", texts[0]), false}
 	}
 	for _, v := range vals[1:] {
 		if v != vals[0] {
 			return 0, 0, &RejectError{CLConflicting, clF[0].Start, fmt.Sprintf("conflicting Content-Length values %v", vals), false}
 		}
 	}
-	if members > 1 && !o.CLDuplicateEqual {
-		return 0, 0, &RejectError{CLDuplicateEqual, clF[0].Start, fmt.Sprintf("Content-Length repeated %d times with the same value %d", members, vals[0]), false}
+	if len(vals) > 1 && !o.CLDuplicateEqual {
+		return 0, 0, &RejectError{CLDuplicateEqual, clF[0].Start, fmt.Sprintf("Content-Length repeated %d times with the same value %d", len(vals), vals[0]), false}
 	}
 	return FramingContentLength, vals[0], nil
 }
